@@ -208,6 +208,9 @@ class NDAdapter(Adapter):
                         idx.append(slice(None if t[1] == NONE_IX else t[1], None if t[2] == NONE_IX else t[2]))
                 key = tuple(idx) if (len(idx) > 1 or self.spelling % 2) else idx[0]
                 o["d"] = o["h"][key]
+            elif action == "GetCell":
+                ix = args[0]
+                obs["ret"] = o["h"][tuple(int(i) for i in ix)]
             elif action == "DropD":
                 del o["d"]
             else:
@@ -295,6 +298,19 @@ class NDAdapter(Adapter):
             if gotn != exp:
                 bad.append("ret")
                 det["ret"] = {"expected": exp, "observed": repr(got)}
+        if action == "GetCell":
+            ix, lows, highs, num = args
+            try:
+                edges, content = obs["ret"]
+                den = pre["h"].get("den", 1)
+                okc = len(edges) == len(ix) and all(float(edges[a][0]) == self.pe.x(lows[a]) and float(edges[a][1]) == self.pe.x(highs[a]) for a in range(len(ix)))
+                okc = okc and feq(content, self.we.val(num) / den)
+            except Exception:
+                okc = False
+            if not okc:
+                bad.append("cell")
+                det["cell"] = {"expected": {"edges": [[self.pe.x(l), self.pe.x(r)] for l, r in zip(lows, highs)], "content": str(self.we.val(num))},
+                               "observed": repr(obs["ret"])}
         if action == "PartialNorm" and obs["ret"] is not None:
             ax, inplace, table = args
             r = obs["ret"]
@@ -420,6 +436,8 @@ class NDAdapter(Adapter):
             return f"PartialNorm/{self._lk(LL)}/ax{args[0]}/{'inplace' if args[1] else 'copy'}"
         if action == "MergeMinFreq":
             return f"MergeMinFreq/{self._lk(LL)}/{args[0]}/ax{args[1]}/{'inplace' if args[2] else 'copy'}"
+        if action == "GetCell":
+            return f"GetCell/{self._lk(LL)}/" + ",".join(str(i) for i in args[0])
         if action == "GetItem":
             return f"GetItem/{self._lk(LL)}/" + ";".join(":".join(str(v) for v in t) for t in args[0])
         if action == "Accumulate":
